@@ -657,3 +657,18 @@ package rapid
 //@   ensures [C17] tbFailed == old(tbFailed) && tbErrors == old(tbErrors)
 //@   ensures [C17] implies(result1 != nil || result2 != nil, result1 != nil && !isInvalidData(result1.data))
 //@   modifies heap, drawn, lockmode, cancelled
+
+// saveFailFile (C16): every crash point leaves either no file under the final name or a complete one.
+// The only call that creates or changes a file under a name the discovery pattern can match is os.Rename;
+// at that call everything has been written (no write error was ignored) and the handle is closed.
+//@ func saveFailFile
+//@   noframe "only ghost file-system state and fresh strings"
+//@   ensures [C16] implies(result == nil, fsRenamed)
+//@   ensures [C16] implies(fsRenamed != old(fsRenamed), fsClosed)
+//@   modifies fsWritten, fsClosed, fsRenamed, fsTmpName, fsTmpDir
+//@   at os.CreateTemp#0 assert [C16] arg1 == failfileTmpPattern && arg0 == dir
+//@   at os.Rename#0 assert [C16] fsClosed && arg0 == fsTmpName && arg1 == filename && fsTmpDir == dir
+//@   at f.WriteString#0 assert [C16] fsRenamed == old(fsRenamed)
+//@   at f.WriteString#1 assert [C16] fsRenamed == old(fsRenamed)
+//@   loop 0 invariant [C16] !fsClosed && fsRenamed == old(fsRenamed) && fsTmpDir == dir && -1 <= rangeindex && rangeindex < len(out)
+//@   loop 1 invariant [C16] !fsClosed && fsRenamed == old(fsRenamed) && fsTmpDir == dir && -1 <= rangeindex && rangeindex < len(buf)
